@@ -9,7 +9,7 @@
    policy i = [i mod 256, i / 256, 0x11 x 26], asset j with an n-byte name = [j mod 256, j / 256, 0xA5 ...]
    truncated to n), because the BTreeMap order of policies and names decides how bundles are packed. *)
 From CSL Require Import Base.Prelude Base.U64 Cbor.Head Num.Value Deposits.Deposits Builder.Totals Builder.Change.
-From CSL Require MinAda.OutputSize MinAda.MinAda MinAda.TxSize.
+From CSL Require MinAda.OutputSize MinAda.MinAda MinAda.TxSize Collateral.Collateral Builder.Scenario Builder.MoreEntry.
 From CSL Require Import MinAda.ChangeInstance.
 Local Open Scope N_scope.
 
@@ -87,7 +87,7 @@ Definition scenario_env (cpb mvs mts : N) (req : list OutputSize.output) (chg_ad
   mkCEnv (MinAda.mkCfg cpb mvs mts)
          (fun id => if id =? 0 then 57 else nth (N.to_nat (id - 1)) addrs 0)
          (fun id => if id =? 0 then (OutputSize.DNone, None) else nth (N.to_nat (id - 1)) extras (OutputSize.DNone, None))
-         44 155381 1.
+         44 155381 1 [] None None None.
 
 Fixpoint number_from {A} (i : N) (l : list A) : list (N * A) :=
   match l with [] => [] | x :: r => (i, x) :: number_from (i + 1) r end.
@@ -107,4 +107,115 @@ Definition run_build_case (cpb mvs mts : N) (pure : bool) (ins : list (N * list 
   | BChange _ => RChangeErr
   | BBuild s => RBuild (state_full_size e s)
   | BOk s => ROk (state_fee s) (state_full_size e s) (state_outputs e s)
+  end.
+
+(* ------------------------------------------------------------------------------------------- *)
+(* `entry` scenarios: the balancing entry points (add_change_if_needed, add_inputs_from_and_change,
+   add_inputs_from_and_change_with_collateral_return = MoreEntry.percent_entry of C05/C19) followed by EVERY build entry
+   point (full_size, build, build_tx, build_tx_unsafe), with collateral inputs / return / total and auxiliary data in the
+   measured transaction. *)
+
+Definition with_col (e : cenv) (ci : list N) (cr : option OutputSize.output) (ct : option N) : cenv :=
+  mkCEnv (ce_cfg e) (ce_addr e) (ce_extra e) (ce_a e) (ce_b e) (ce_vkeys e) ci cr ct (ce_aux e).
+
+(* a collateral return (TransactionOutput::new(address, value): no datum, no script) as a shape *)
+Definition col_shape (o : Collateral.Collateral.output) : OutputSize.output :=
+  OutputSize.mkOut (N.of_nat (length (Collateral.Collateral.o_addr o))) (coin (Collateral.Collateral.o_amount o))
+                   (shape_ma (multiasset_of (Collateral.Collateral.o_amount o))) OutputSize.DNone None.
+
+(* check_max_value_size, then min_ada_for_output, of the collateral return *)
+Definition ask_col_c (e : cenv) (o : Collateral.Collateral.output) (u : unit) : result N * unit :=
+  let sh := col_shape o in
+  (if MinAda.c_max_value_size (ce_cfg e) <? OutputSize.out_value_size sh then Err
+   else MinAda.min_ada_for_output (MinAda.c_cpb (ce_cfg e)) sh, u).
+
+Inductive entry_res :=
+| EAddOut
+| EFail                                   (* the balancing entry point returned an error *)
+| EPanic
+| EFuel
+| EDone (fee full : N) (b_ok t_ok u_ok : bool) (outs : list OutputSize.output)
+        (col_ret : option OutputSize.output) (col_total : option N).
+
+Definition col_txin (i : N) : Collateral.Collateral.txin := (repeat 192 32, i).
+
+Definition run_entry_case (cpb mvs mts : N) (pure : bool) (ins : list (N * list (list (N * N))))
+    (req : list OutputSize.output) (chg_addr : N) (chg_datum : OutputSize.datum) (chg_sref : option OutputSize.sref)
+    (via : N) (cols : list (N * list (list (N * N)))) (pct : N) (aux : option N) (late : bool) : entry_res :=
+  let addrs := map OutputSize.o_addr req ++ [chg_addr] in
+  let extras := map (fun o => (OutputSize.o_datum o, OutputSize.o_sref o)) req ++ [(chg_datum, chg_sref)] in
+  let e0 := mkCEnv (MinAda.mkCfg cpb mvs mts)
+         (fun id => if id =? 0 then 57 else nth (N.to_nat (id - 1)) addrs 0)
+         (fun id => if id =? 0 then (OutputSize.DNone, None) else nth (N.to_nat (id - 1)) extras (OutputSize.DNone, None))
+         44 155381 1 [] None None (if late then None else aux) in
+  let cfg5 := mkConfig 500000000 2000000 pure false in
+  let ins' := map (fun iv => (fst iv, mk_value (fst (snd iv)) (snd (snd iv)))) (number_from 0 ins) in
+  let req' := map (fun io => mkOutput (1 + fst io) (mk_value (OutputSize.o_coin (snd io)) (OutputSize.o_ma (snd io))) (1 + fst io))
+                  (number_from 0 req) in
+  let chg := 1 + N.of_nat (length req) in
+  let col_ix := map fst (number_from 0 cols) in
+  let col_in := Collateral.Collateral.col_of_list
+                  (map (fun iv => (col_txin (fst iv), mk_value (fst (snd iv)) (snd (snd iv)))) (number_from 0 cols)) in
+  (* collateral inputs are in the builder from the start *)
+  let e_in := with_col e0 col_ix None None in
+  let r0 := add_inputs ins' (new_state cfg5) tt in
+  let r1 := add_outputs_m (c07_oracle e_in) req' (out_st r0) tt in
+  match out_res r1 with
+  | Ok _ =>
+      let s1 := out_st r1 in
+      (* the balancing step: result, state, final collateral return / total *)
+      let '(res, s2, cret, ctot) :=
+        if via =? 0 then
+          let r := add_change (c07_oracle e_in) 200 chg chg s1 tt in (out_res r, out_st r, None, None)
+        else if via =? 1 then
+          let r := add_inputs_from_and_change (c07_oracle e_in) 200 [] chg chg s1 tt in (out_res r, out_st r, None, None)
+        else
+          match Collateral.Collateral.total_value col_in with
+          | Ok tc =>
+              (* while the balancing runs the builder carries the placeholder return (all of the collateral) and total *)
+              let addr_b := repeat 0 (N.to_nat chg_addr) in
+              let e_bal := with_col e0 col_ix (Some (col_shape (Collateral.Collateral.output_new addr_b tc))) (Some (coin tc)) in
+              let j := MoreEntry.percent_entry (c07_oracle e_bal) (ask_col_c e0) 200 [] chg chg addr_b pct s1
+                         (MoreEntry.mkCol col_in None None) tt in
+              (match MoreEntry.jo_res j with Ok _ => Ok true | Err => Err | Panic => Panic | OutOfFuel => OutOfFuel end,
+               MoreEntry.jo_st j,
+               option_map col_shape (MoreEntry.cs_return (MoreEntry.jo_col j)), MoreEntry.cs_total (MoreEntry.jo_col j))
+          | _ => (Err, s1, None, None)
+          end in
+      match res with
+      | Ok _ =>
+          (* metadata attached after the balancing is part of what the build entry points measure *)
+          let e1 := mkCEnv (ce_cfg e0) (ce_addr e0) (ce_extra e0) (ce_a e0) (ce_b e0) (ce_vkeys e0) [] None None aux in
+          let e_fin := with_col e1 col_ix cret ctot in
+          let full := state_full_size e_fin s2 in
+          let fee_set := match get_fee_if_set s2 with Some _ => true | None => false end in
+          let b_ok := fee_set && negb (mts <? full) in
+          let t_ok := match out_res (build_tx (c07_oracle e_fin) s2 tt) with Ok _ => true | _ => false end in
+          EDone (state_fee s2) full b_ok t_ok b_ok (state_outputs e_fin s2) cret ctot
+      | Err => EFail
+      | Panic => EPanic
+      | OutOfFuel => EFuel
+      end
+  | _ => EAddOut
+  end.
+
+(* `txsize`: inputs and outputs, set_fee(fee) by hand, no balancing; then every build entry point.
+   Returns (full size, admitted?, build ok, build_tx ok, build_tx_unsafe ok). *)
+Definition run_txsize_case (mts : N) (ins : list (N * list (list (N * N)))) (req : list OutputSize.output) (fee : N)
+  : option (N * bool * bool * bool) :=
+  let e := scenario_env 4310 5000 mts req 57 OutputSize.DNone in
+  let cfg5 := mkConfig 500000000 2000000 false false in
+  let ins' := map (fun iv => (fst iv, mk_value (fst (snd iv)) (snd (snd iv)))) (number_from 0 ins) in
+  let req' := map (fun io => mkOutput (1 + fst io) (mk_value (OutputSize.o_coin (snd io)) (OutputSize.o_ma (snd io))) (1 + fst io))
+                  (number_from 0 req) in
+  let r0 := add_inputs ins' (new_state cfg5) tt in
+  let r1 := add_outputs_m (c07_oracle e) req' (out_st r0) tt in
+  match out_res r1 with
+  | Ok _ =>
+      let s := set_s_fee_request (FeeExactly fee) (out_st r1) in
+      let full := state_full_size e s in
+      let b_ok := negb (mts <? full) in
+      let t_ok := match out_res (build_tx (c07_oracle e) s tt) with Ok _ => true | _ => false end in
+      Some (full, b_ok, t_ok, b_ok)
+  | _ => None
   end.
